@@ -5,7 +5,7 @@
 //! VIOLATION of the property (none of the properties allows either); an unconfirmed one is a
 //! MACHINERY-ERROR.
 
-use crate::engine::{CASE_AREA, CASE_MAX, NSLOTS, SLOT};
+use crate::engine::{CASE_AREA, CASE_MAX, NSLOTS, SLOT, TID_AREA};
 use crate::report::{h64, verif_root, Tier};
 use serde_json::json;
 use std::os::unix::fs::FileExt;
@@ -17,6 +17,20 @@ fn read_slots(f: &std::fs::File) -> Vec<(u64, u64, u64, u64)> {
     let mut buf = vec![0u8; (SLOT * NSLOTS) as usize];
     let _ = f.read_at(&mut buf, 0);
     buf.chunks(32).map(|c| (u64::from_le_bytes(c[0..8].try_into().unwrap()), u64::from_le_bytes(c[8..16].try_into().unwrap()), u64::from_le_bytes(c[16..24].try_into().unwrap()), u64::from_le_bytes(c[24..32].try_into().unwrap()))).collect()
+}
+fn read_tids(f: &std::fs::File) -> Vec<u64> {
+    let mut buf = vec![0u8; (NSLOTS * 8) as usize];
+    let _ = f.read_at(&mut buf, TID_AREA);
+    buf.chunks(8).map(|c| u64::from_le_bytes(c.try_into().unwrap())).collect()
+}
+/// CPU seconds of one thread of the child
+fn thread_cpu_secs(pid: u32, tid: u64) -> Option<f64> {
+    let st = std::fs::read_to_string(format!("/proc/{pid}/task/{tid}/stat")).ok()?;
+    let rest = &st[st.rfind(')')? + 1..];
+    let f: Vec<&str> = rest.split_whitespace().collect();
+    let ut: f64 = f.get(11)?.parse().ok()?;
+    let stime: f64 = f.get(12)?.parse().ok()?;
+    Some((ut + stime) / 100.0)
 }
 fn read_case(f: &std::fs::File) -> Option<(u64, String)> {
     let mut head = [0u8; 16];
@@ -36,7 +50,7 @@ fn progress_file(tag: &str) -> Option<(std::path::PathBuf, std::fs::File)> {
     std::fs::create_dir_all(&dir).ok()?;
     let path = dir.join(format!("{tag}-{}.bin", std::process::id()));
     let f = std::fs::OpenOptions::new().read(true).write(true).create(true).truncate(true).open(&path).ok()?;
-    f.set_len(CASE_AREA + 16 + CASE_MAX as u64).ok()?;
+    f.set_len(TID_AREA + NSLOTS * 8).ok()?;
     Some((path, f))
 }
 
@@ -87,15 +101,20 @@ fn run_inner(prop: &str, tier: Tier, only: Option<(u64, u64)>, path: &std::path:
         }
         let now = read_slots(f);
         let cpu = cpu_secs(pid).unwrap_or(0.0);
+        let tids = read_tids(f);
         let mut stalled = vec![];
         for (i, (a, b)) in last.iter().zip(now.iter()).enumerate() {
             if a != b {
                 since[i] = Instant::now();
-                since_cpu[i] = cpu;
-            } else if b.2 == 1 && since[i].elapsed() > stall && cpu - since_cpu[i] > stall.as_secs_f64() {
-                // the block has not moved for `stall` seconds while the process burned at least that
-                // much CPU time (a spinning thread burns one core)
-                stalled.push((b.0, b.1));
+                since_cpu[i] = thread_cpu_secs(pid, tids[i]).unwrap_or(0.0);
+            } else if b.2 == 1 && since[i].elapsed() > stall {
+                // the block has not moved for `stall` seconds of wall time: it only counts as stalled
+                // if its own thread has burned that much CPU time since (a spinning thread does; a
+                // thread that is not being scheduled on a busy machine does not)
+                let burned = thread_cpu_secs(pid, tids[i]).map_or(0.0, |c| c - since_cpu[i]);
+                if burned > stall.as_secs_f64() {
+                    stalled.push((b.0, b.1));
+                }
             }
         }
         last = now;
@@ -142,7 +161,7 @@ pub fn supervise(prop: &str, tier: Tier) -> i32 {
             return 2;
         }
     };
-    eprintln!("[{prop}] inner check ended abnormally: {how}; bisecting {} running block(s)", candidates.len());
+    eprintln!("[{prop}] inner check ended abnormally: {how}; bisecting {} running block(s): {:?}", candidates.len(), candidates.iter().take(8).collect::<Vec<_>>());
     let mut found = vec![];
     let mut starved = false;
     for (s, b) in candidates.iter().take(64) {
